@@ -25,6 +25,9 @@ pub struct C02Monitor
     pub live_obligations: u32,
     pub nontrivial_builds: u32,
     pub restores_instead_of_runs: u32,
+    /// ruler's history was (partly) deleted at some point: rules may hold history the harness no longer knows of and
+    /// take cache entries the demand count cannot see, so only "still holds its output" obligations are asserted afterwards
+    history_deleted_once: bool,
 }
 
 impl C02Monitor
@@ -40,6 +43,7 @@ impl C02Monitor
             live_obligations: 0,
             nontrivial_builds: 0,
             restores_instead_of_runs: 0,
+            history_deleted_once: false,
         }
     }
 
@@ -77,20 +81,30 @@ impl Monitor for C02Monitor
         let reference = w.model.eval(inv.goal());
         let pre = w.sys.snapshot();
         let cache = engine::cache_entries(&pre);
-        // demand for each cache entry: in-scope targets that do not hold their expected content
+        // demand for each cache entry: in-scope targets that do not hold the content ruler will try to bring back for
+        // them. A rule that is going to FAIL in this build (e.g. one of its targets sits in a directory the user removed)
+        // still restores its other targets first, so it counts too, by the harness's record of its earlier success.
         let mut demand: BTreeMap<String, u32> = BTreeMap::new();
         for (i, r) in w.model.rules.iter().enumerate()
         {
-            if !reference.in_scope[i] || reference.outcome[i] != ROut::Ok
+            if !reference.in_scope[i] || matches!(reference.outcome[i], ROut::Cancelled | ROut::OutOfScope)
             {
                 continue;
             }
+            let rec = C02Monitor::source_contents(w, &reference, r).and_then(|sc| self.records.get(&r.canon()).and_then(|m| m.get(&sc)).cloned());
             for t in r.targets.iter()
             {
-                let want = &reference.files[t].0;
-                if pre.get(t).map(|f| &f.data) != Some(want)
+                let want: Option<Vec<u8>> = match &rec
                 {
-                    *demand.entry(b62::name_of(want)).or_insert(0) += 1;
+                    Some(rec) => rec.get(t).cloned(),
+                    None => if reference.outcome[i] == ROut::Ok { reference.files.get(t).map(|x| x.0.clone()) } else { None },
+                };
+                if let Some(want) = want
+                {
+                    if pre.get(t).map(|f| &f.data) != Some(&want)
+                    {
+                        *demand.entry(b62::name_of(&want)).or_insert(0) += 1;
+                    }
                 }
             }
         }
@@ -132,7 +146,7 @@ impl Monitor for C02Monitor
                 ok = false;
                 break;
             }
-            if ok
+            if ok && !(needs_restore && self.history_deleted_once)
             {
                 self.obligations.push((i, if needs_restore { "restore".to_string() } else { "up-to-date".to_string() }));
             }
@@ -270,7 +284,7 @@ impl Monitor for C02Monitor
         match op
         {
             // ruler's memory is gone (or may be): the harness's record no longer obliges anything
-            Op::DeleteRulerDir | Op::DeleteHistory | Op::DeleteHistoryFile { .. } => self.records.clear(),
+            Op::DeleteRulerDir | Op::DeleteHistory | Op::DeleteHistoryFile { .. } => { self.records.clear(); self.history_deleted_once = true; }
             _ => {}
         }
     }
